@@ -1,4 +1,5 @@
 import LyModel.Iff.LemmasRangeInv
+import LyModel.Iff.LemmasRangeGram
 /-!
 # C11 — range / length restrictions
 
@@ -206,5 +207,71 @@ theorem range_validate_fixed (fx : RFix) (h30 : fx.f30 = true) (h51 : fx.f51 = t
 
 example : compileRange { f30 := true, f51 := true } int8 (some [⟨1, 10⟩]) [0x32, 0x2e, 0x2e, 0x35, 0x7c, 0x37] =
     .ok [⟨2, 5⟩, ⟨7, 7⟩] := rfl
+
+/-! ## the part parser and the RFC grammar -/
+
+/-- Full-strength statement: `lys_compile_type_range` accepts exactly the arguments of the RFC 7950 `range-arg` /
+`length-arg` grammar (here: everything it accepts is generated by the grammar `RangeA`). -/
+def RangeParseCorrect (fx : RFix) : Prop :=
+  ∀ (t : RType) (arg : Bytes) (parts : List Part), compileRange fx t none arg = .ok parts → ∃ a : RangeA, a.render = arg
+
+/-- **F53.** False, with or without the repairs: `range "+2"` is accepted (as 2), but no `range-arg` starts with `+`. -/
+theorem range_parse_correct_fails (fx : RFix) : ¬ RangeParseCorrect fx := by
+  intro h
+  have hc : compileRange fx int8 none [0x2b, 0x32] = .ok [⟨2, 2⟩] := by
+    cases fx with
+    | mk f30 f51 => cases f30 <;> cases f51 <;> rfl
+  obtain ⟨a, ha⟩ := h int8 _ _ hc
+  -- every range-arg starts with `m`, `-` or a digit
+  have hhead : ∀ b : Bnd, ∃ c tl, b.render = c :: tl ∧ c ≠ 0x2b := by
+    intro b
+    cases b with
+    | min => exact ⟨0x6d, _, rfl, by decide⟩
+    | max => exact ⟨0x6d, _, rfl, by decide⟩
+    | num n =>
+      obtain ⟨c, tl, hr, hc⟩ := n.render_head
+      refine ⟨c, tl, hr, ?_⟩
+      rcases hc with hc | hc
+      · intro e; subst e; revert hc; decide
+      · subst hc; decide
+  obtain ⟨c, tl, hr, hne⟩ := hhead a.first.lo
+  have : a.render = c :: (tl ++ (match a.first.hi with
+      | none => []
+      | some (o1, o2, b) => o1.s ++ kwDots ++ o2.s ++ b.render) ++ renderRest a.rest) := by
+    simp only [RangeA.render, PartA.render, hr, List.cons_append, List.append_assoc]
+    rfl
+  rw [this] at ha
+  simp only [List.cons.injEq] at ha
+  exact hne ha.1
+
+/-- The part that holds, for both integer ranges and lengths, every base restriction and either state of the repairs:
+every argument of the grammar — any number of parts, any white space where `optsep` stands, `min` as the first and
+`max` as the last boundary — whose boundaries are values of the type and whose parts are ascending and disjoint is
+accepted, and compiles to exactly the parts it denotes (with `parts_done` = their number, so the subset walk of a
+derived restriction sees every part). -/
+theorem range_parse_correct_partial (fx : RFix) (t : RType) (hwf : t.WF) (base : Option (List Part)) (a : RangeA)
+    (P : List Part) (hk : a.KwOK) (hv : a.values t base = some P) (hasc : StrictAsc P) :
+    loop fx t base (a.render.length + 1) a.render {} = .ok (P, P.length) ∧
+    (base = none → compileRange fx t none a.render = .ok P) := by
+  refine ⟨loop_grammatical fx t base hwf a P hk hv hasc, ?_⟩
+  intro hb
+  subst hb
+  have := loop_grammatical fx t none hwf a P hk hv hasc
+  simp [compileRange, this]
+
+/-- `min .. 5 |\t7..max` on int8: the hypotheses are satisfiable by a non-trivial argument -/
+def sampleRange : RangeA :=
+  { first := { lo := .min, hi := some (⟨[0x20], by decide⟩, ⟨[0x20], by decide⟩, .num ⟨false, [0x35], by decide, by decide⟩) },
+    rest := [(⟨[0x20], by decide⟩, ⟨[0x09], by decide⟩,
+      { lo := .num ⟨false, [0x37], by decide, by decide⟩, hi := some (⟨[], by decide⟩, ⟨[], by decide⟩, .max) })] }
+
+example : sampleRange.render = [0x6d, 0x69, 0x6e, 0x20, 0x2e, 0x2e, 0x20, 0x35, 0x20, 0x7c, 0x09, 0x37, 0x2e, 0x2e, 0x6d, 0x61, 0x78] := rfl
+example : sampleRange.values int8 none = some [⟨-128, 5⟩, ⟨7, 127⟩] := rfl
+example : compileRange {} int8 none sampleRange.render = .ok [⟨-128, 5⟩, ⟨7, 127⟩] := rfl
+example : int8.WF ∧ StrictAsc [⟨-128, 5⟩, ⟨7, 127⟩] := by
+  refine ⟨⟨rfl, by decide⟩, ?_⟩
+  simp [StrictAsc]
+example : sampleRange.KwOK := by
+  simp [sampleRange, RangeA.KwOK, PartA.KwOK, RestKwOK]
 
 end LyModel.Props.C11
